@@ -136,6 +136,7 @@ def merge(results):
         "samples": {},
         "extra": {},
         "reach": {},
+        "cover": {},
         "dead": [],
         "harness_errors": [],
         "n_harness_errors": 0,
@@ -154,6 +155,8 @@ def merge(results):
                 m["reach"].setdefault(k, -1)
             else:
                 m["reach"][k] = max(m["reach"].get(k, 0), 0) + v
+        for rel, lines in r.get("cover", {}).items():
+            m["cover"].setdefault(rel, set()).update(lines)
         m["violations"].extend(r["violations"])
         m["viol_count"] += r["viol_count"]
         for k, v in r["samples"].items():
@@ -163,6 +166,34 @@ def merge(results):
         m["harness_errors"].extend(r.get("harness_errors", []))
         m["n_harness_errors"] += r.get("n_harness_errors", 0)
     return m
+
+
+def cover_summary(cover, detail=False):
+    """Statement coverage of the property's anchored files by this run's workload (evidence of reach, not a verdict)."""
+    from bcv.monitors import reach
+
+    files, never, partial = {}, [], {}
+    for rel, hit in sorted(cover.items()):
+        path = os.path.join(env.REPO, rel)
+        if not os.path.exists(path):
+            continue
+        hit = set(hit)
+        fn_lines = reach.executable_lines(path)
+        allx = set().union(*fn_lines.values()) if fn_lines else set()
+        files[rel] = {"executable_lines": len(allx), "executed_lines": len(allx & hit),
+                      "functions": sum(1 for n in fn_lines if n != "<module>"),
+                      "functions_entered": sum(1 for n, ls in fn_lines.items() if n != "<module>" and ls & hit)}
+        for n, ls in sorted(fn_lines.items()):
+            if n == "<module>" or not ls:
+                continue
+            if not ls & hit:
+                never.append(f"{rel}:{n}")
+            elif detail and ls - hit:
+                partial[f"{rel}:{n}"] = sorted(ls - hit)
+    out = {"files": files, "functions_never_entered": never[:80], "functions_never_entered_total": len(never)}
+    if detail:
+        out["partial"] = partial
+    return out
 
 
 def replay_path(pid, v):
@@ -239,6 +270,7 @@ def decide(pid, mod, tier, seed, m, wall, write_evidence=True):
             "exhaustive_scope": getattr(mod, "EXHAUSTIVE_SCOPE", {}).get(tier) if hasattr(mod, "EXHAUSTIVE_SCOPE") else None,
             "monitor_evaluations": m["monitor_evals"],
             "reach": m["reach"],
+            "anchor_statement_coverage": cover_summary(m["cover"]),
             "exceptions_observed": m["exceptions"],
             "signature_histogram": m["sig_hist"],
             "counters": m["extra"],
@@ -346,6 +378,10 @@ def main():
     m = merge(results)
     m["_specs"] = specs
     rc = decide(pid, mod, a.tier, seed, m, time.time() - t0, write_evidence=not a.no_evidence)
+    if os.environ.get("BCV_COVER_DETAIL"):
+        from bcv import core
+
+        core.dump(os.environ["BCV_COVER_DETAIL"], cover_summary(m["cover"], detail=True))
     sys.exit(rc)
 
 
